@@ -18,6 +18,10 @@ import (
 	"unicode/utf8"
 
 	"github.com/reeflective/readline"
+	"github.com/reeflective/readline/inputrc"
+	"github.com/reeflective/readline/internal/core"
+	"github.com/reeflective/readline/internal/history"
+	"github.com/reeflective/readline/internal/ui"
 )
 
 type finding struct {
@@ -54,6 +58,20 @@ func contents(path string) ([]string, error) {
 		out = append(out, l)
 	}
 	return out, nil
+}
+
+// writer opens the history file for appending the way an application can: through NewHistoryFromFile, or
+// through Shell.History.AddFromFile (history.Sources.AddFromFile builds the source by hand)
+func writer(path string, how int) (history.Source, string) {
+	if how%2 == 0 {
+		h, _ := readline.NewHistoryFromFile(path) // a file that does not exist yet: the error is expected
+		return h, "NewHistoryFromFile"
+	}
+	l := core.Line{}
+	srcs := history.NewSources(&l, core.NewCursor(&l), new(ui.Hint), inputrc.NewDefaultConfig())
+	srcs.Delete()
+	srcs.AddFromFile("file", path)
+	return srcs.Current(), "AddFromFile"
 }
 
 func eq(a, b []string) bool {
@@ -189,7 +207,8 @@ func main() {
 			lines[r.Intn(len(lines))] = l
 		}
 		rep.Classes[class]++
-		h, _ := readline.NewHistoryFromFile(path) // the file does not exist yet: the error is expected
+		h, how := writer(path, r.Intn(2))
+		rep.Classes["opened-by/"+how]++
 		// expected durable content: what Write accepts (trimmed, non-blank); the file keeps consecutive duplicates
 		var want []string
 		var sizes []int64
@@ -251,16 +270,16 @@ func main() {
 				continue
 			}
 			// entries written after reopening are durable again
-			h2, _ := readline.NewHistoryFromFile(path)
+			h2, how2 := writer(path, int(cut-start)+i)
 			h2.Write("after crash")
 			h2.Write("second after crash")
 			got2, _ := contents(path)
 			rep.Reopens++
 			want2 := append(append([]string{}, got...), "after crash", "second after crash")
 			if !eq(got2, want2) {
-				sig := "append-after-cut-not-durable/"
+				sig := "append-after-cut-not-durable/" + how2 + "/"
 				if cut == start {
-					sig = "append-after-clean-cut-not-durable/"
+					sig = "append-after-clean-cut-not-durable/" + how2 + "/"
 				}
 				add(finding{sig + class, fmt.Sprintf("cut %d bytes into the last append, then two appends: want %s, reopened %s", cut-start, short(want2), short(got2)), lines, int(cut)})
 			}
